@@ -69,3 +69,8 @@ func Calls() int {
 func Destroy() {
 	management.Destroy()
 }
+
+// Subscribe asks the notifier to subscribe this very contract: the request comes from the contract it is about.
+func Subscribe(target interop.Hash160) {
+	contract.Call(target, "subscribeForNewEpoch", contract.All, runtime.GetExecutingScriptHash())
+}
